@@ -71,6 +71,17 @@ pub fn names_of(mask: u8) -> Vec<&'static str> {
     (0..3).filter(|i| mask & (1 << i) != 0).map(|i| CHUNKS[i]).collect()
 }
 
+/// Database codes: bits 0..2 = which chunks, bits 3.. = the newest immutable chunk is cut down to its first 1 / 2 / 17
+/// blocks (0 = as it is in test_data).
+pub fn cut_of(code: u8) -> Option<usize> {
+    match code >> 3 {
+        0 => None,
+        1 => Some(1),
+        2 => Some(2),
+        _ => Some(17),
+    }
+}
+
 /// Load the oracle's view of the three chunks; `Err` = the oracle itself is not trustworthy here.
 pub fn load_chunks() -> Result<Vec<Vec<Blk>>, String> {
     let td = pvkit::corpus::test_data();
@@ -108,16 +119,23 @@ pub fn build_dbs<'a>(chunks: &'a [Vec<Blk>], masks: &[u8]) -> Vec<Db<'a>> {
         .map(|&mask| {
             let dir = TempDir::new(&format!("c42-{mask}"));
             let names = names_of(mask);
-            for n in &names {
-                imm::link_chunk(dir.path(), n, n);
+            let cut = if names.len() >= 2 { cut_of(mask) } else { None };
+            for (k, n) in names.iter().enumerate() {
+                match cut {
+                    Some(keep) if k + 2 == names.len() => imm::write_chunk_head(dir.path(), n, n, keep),
+                    _ => imm::link_chunk(dir.path(), n, n),
+                }
             }
             let mut blocks = vec![];
             let mut chunk_starts = vec![];
             // all but the last (greatest name) chunk
-            for n in names.iter().take(names.len().saturating_sub(1)) {
+            for (k, n) in names.iter().enumerate().take(names.len().saturating_sub(1)) {
                 let ci = CHUNKS.iter().position(|c| c == n).unwrap();
                 chunk_starts.push(blocks.len());
-                blocks.extend(chunks[ci].iter());
+                match cut {
+                    Some(keep) if k + 2 == names.len() => blocks.extend(chunks[ci].iter().take(keep)),
+                    _ => blocks.extend(chunks[ci].iter()),
+                }
             }
             Db { mask, dir, blocks, chunk_starts }
         })
@@ -193,8 +211,11 @@ pub fn check(dbs: &[Db], c: &Case, obs: &mut Obs) -> Result<(), Fail> {
     };
     let dir = db.dir.path();
     let n = db.blocks.len();
-    let ctx = format!("db={:?} {:?}", names_of(db.mask), c.q);
+    let ctx = format!("db={:?}{} {:?}", names_of(db.mask), cut_of(db.mask).map(|k| format!(" (newest immutable chunk cut to {k} blocks)")).unwrap_or_default(), c.q);
     obs.class(format!("db-chunks:{}", names_of(db.mask).len()));
+    if let Some(k) = cut_of(db.mask) {
+        obs.class(format!("newest-immutable-chunk-cut-to:{k}"));
+    }
     match &c.q {
         Q::ReadAll => {
             obs.class("read-all");
@@ -327,7 +348,8 @@ fn resolve(db: &Db, q: &RQ) -> Option<Q> {
 
 fn rcase() -> impl Strategy<Value = RCase> {
     // databases with at least one immutable chunk: masks 3, 5, 6, 7
-    let db = prop_oneof![Just(3u8), Just(5u8), Just(6u8), Just(7u8)];
+    // (and, one time in three, their variants with a cut newest immutable chunk)
+    let db = (prop_oneof![Just(3u8), Just(5u8), Just(6u8), Just(7u8)], prop_oneof![4 => Just(0u8), 1 => Just(1u8), 1 => Just(2u8)]).prop_map(|(m, c)| m | (c << 3));
     let q = prop_oneof![
         2 => any::<u16>().prop_map(|sel| RQ::Exact { sel }),
         2 => (any::<u16>(), -3i8..=3).prop_map(|(sel, delta)| RQ::FuzzyNear { sel, delta }),
@@ -351,7 +373,7 @@ pub fn run(s: &Session) {
 
 fn run_inner(s: &Session) {
     s.set_rule("(database, query). Databases: temp directories with every subset (incl. empty) of the three test_data chunk \
-        triples; the immutable part is all chunks but the greatest-named one. Queries: read_blocks, get_tip, \
+        triples, plus those whose newest immutable chunk is cut down to its first 1 / 2 / 17 blocks; the immutable part is all chunks but the greatest-named one. Queries: read_blocks, get_tip, \
         read_blocks_from_point at every immutable block as exact point, fuzzy (empty hash) at \
         block slots -1/0/+1, chunk-gap and past-tip slots (thorough: every slot inside every chunk's range), absent exact \
         points (flipped hash bit, another block's hash, real hash at a neighbouring/other block's/empty/beyond-tip slot, hash \
@@ -373,7 +395,16 @@ fn run_inner(s: &Session) {
         }
     };
     s.note("oracle_blocks_per_chunk", serde_json::json!(chunks.iter().map(|c| c.len()).collect::<Vec<_>>()));
-    let masks: Vec<u8> = (0u8..8).collect();
+    // every subset as it is, plus the subsets with an immutable part whose newest immutable chunk holds 1 / 2 / 17 blocks
+    let mut masks: Vec<u8> = (0u8..8).collect();
+    for cut in 1u8..=3 {
+        for sub in [3u8, 5, 6, 7] {
+            if cut == 3 && sub != 7 {
+                continue;
+            }
+            masks.push(sub | (cut << 3));
+        }
+    }
     let dbs = build_dbs(&chunks, &masks);
     let dbs = &dbs[..];
     let quick = s.quick();
@@ -449,19 +480,23 @@ fn run_inner(s: &Session) {
                 idxs.push(st - 1);
             }
         }
-        idxs.extend([n - 2, n - 1]);
+        idxs.extend([n.saturating_sub(2), n - 1]);
+        idxs.retain(|i| *i < n);
         idxs.sort();
         idxs.dedup();
         let last = db.blocks[n - 1].slot;
         for idx in idxs {
             let b = db.blocks[idx];
             fam.push(Case { db: db.mask, q: Q::AbsentFlippedHash { idx, byte: (idx % 32) as u8, bit: (idx % 8) as u8 } });
-            fam.push(Case { db: db.mask, q: Q::AbsentOtherHash { idx, other: (idx + 1) % n } });
-            fam.push(Case { db: db.mask, q: Q::AbsentOtherHash { idx, other: (idx + n - 1) % n } });
+            // (a one-block database has no other block)
+            if n > 1 {
+                fam.push(Case { db: db.mask, q: Q::AbsentOtherHash { idx, other: (idx + 1) % n } });
+                fam.push(Case { db: db.mask, q: Q::AbsentOtherHash { idx, other: (idx + n - 1) % n } });
+                fam.push(Case { db: db.mask, q: Q::AbsentWrongSlot { idx, slot: db.blocks[(idx + 1) % n].slot } });
+                fam.push(Case { db: db.mask, q: Q::AbsentWrongSlot { idx, slot: db.blocks[(idx + n - 1) % n].slot } });
+            }
             fam.push(Case { db: db.mask, q: Q::AbsentWrongSlot { idx, slot: b.slot + 1 } });
             fam.push(Case { db: db.mask, q: Q::AbsentWrongSlot { idx, slot: b.slot - 1 } });
-            fam.push(Case { db: db.mask, q: Q::AbsentWrongSlot { idx, slot: db.blocks[(idx + 1) % n].slot } });
-            fam.push(Case { db: db.mask, q: Q::AbsentWrongSlot { idx, slot: db.blocks[(idx + n - 1) % n].slot } });
             fam.push(Case { db: db.mask, q: Q::AbsentWrongSlot { idx, slot: last + 1 } });
             fam.push(Case { db: db.mask, q: Q::AbsentWrongSlot { idx, slot: last + 1_000_000 } });
             fam.push(Case { db: db.mask, q: Q::AbsentWrongSlot { idx, slot: db.blocks[0].slot - 1 } });
